@@ -412,7 +412,7 @@ PROPS = {
                         "V5_iter.handle_skips.*", "V5_iter.fn:next_module_with_work", "V5_iter.fn:lemma_next_live",
                         "V4b_iter_inject.fn:ComponentIterator::new", "V4b_iter_inject.get_func_metadata.*", "V4b_iter_inject.fn:Module::get_func_metadata",
                         "V4b_iter_inject.fn:lemma_metadata_members", "V4b_iter_inject.fn:Functions::get"],
-        "glue": ["of the ComponentIterator injection methods, inject / inject_at / set_instrument_mode_at / add_instr_at / empty_block_alt_at / empty_alternate_at / clear_instr_at / append_tag_at are under contract (same effect predicates as the ModuleIterator ones - `lf_added`, and for set_instrument_mode_at / inject_at the same clause-by-clause frame - on the addressed function of the addressed module; the other functions of that module, the other modules and the cursor untouched; `lf_cleared` - the contract of LocalFunction::clear_instr_at, V4 - for clear_instr_at, `lf_tag_appended` - the contract of LocalFunction::append_instr_tag_at, V20 - for append_tag_at); add_local is compared by reading only",
+        "glue": ["of the ComponentIterator injection methods, inject / inject_at / set_instrument_mode_at / add_instr_at / empty_block_alt_at / empty_alternate_at / clear_instr_at / append_tag_at / get_injected_val are under contract (same effect predicates as the ModuleIterator ones - `lf_added`, and for set_instrument_mode_at / inject_at the same clause-by-clause frame - on the addressed function of the addressed module; the other functions of that module, the other modules and the cursor untouched; `lf_cleared` - the contract of LocalFunction::clear_instr_at, V4 - for clear_instr_at, `lf_tag_appended` - the contract of LocalFunction::append_instr_tag_at, V20 - for append_tag_at); add_local is compared by reading only",
                  "ComponentIterator::{new,next,curr_loc,curr_op,reset} are under contract in V4b against the ComponentSubIterator contracts that V5 proves (assumed there in a weaker form: `settled()` = past the last module or on an instruction of module curr_mod, each clause implied by the V5 postcondition of the same function); `new` requires comp.num_modules == comp.modules.len() and parsed modules (ids are positions, recorded sizes are lengths, bodies non-empty) - the invariant parse_comp establishes, not proved here; print_metadata (stdout only) is a stub",
                  "that injections keep `consistent()` (they do not change instruction counts) is not threaded through the injection methods"],
         "design_ref": "DESIGN.md §4 V5, §5 C26",
